@@ -12,7 +12,7 @@
 From AK Require Import Base.Prelude Bytes.Text Bytes.FabHeader Bytes.BinFile
   Reader.Select Reader.BoxRead Reader.Level Reader.ReadSpec
   Writers.Colander Writers.ColanderSpec Writers.CombineProofs Writers.Chef Writers.ChefProofs Writers.Pipeline
-  Plotfile.TextHeader Taste.Taste Plotfile.Abstract Writers.ColanderToolProofs Writers.ColanderPipeline Writers.Combine Writers.CombineSpec Writers.CombineToolProofs Writers.CombinePipeline Props.C05 Props.C06.
+  Plotfile.TextHeader Taste.Taste Plotfile.Abstract Writers.ColanderToolProofs Writers.ColanderPipeline Writers.Combine Writers.CombineSpec Writers.CombineToolProofs Writers.CombinePipeline Writers.ChefToolProofs Writers.ChefPipeline Props.C05 Props.C06.
 
 (* Any finite sequence of operations, each of which preserves well-formedness
    and refines its pure counterpart, ends in a well-formed state whose
@@ -72,6 +72,23 @@ Theorem C14_strain_combine_chain : forall ops pf pf',
   run pdisk kop kop_tool ops (pf_disk pf) = Some (pf_disk pf') /\ good pf' /\
   Forall (fun d => exists p, good p /\ d = pf_disk p) (states pdisk kop kop_tool ops (pf_disk pf)).
 Proof. exact strain_combine_pipeline. Qed.
+
+(* ... and a chef run (user recipe) at the END of such a chain: the chain
+   succeeds, every intermediate directory is the image of a good plotfile, and
+   the cooked directory is the image of the cooked plotfile of the composed pure
+   operations.  (A cooked plotfile carries the model's bit-pattern min/max
+   tokens and is not a 'good' plotfile of the model: chef closes a chain here;
+   chains continuing after chef are covered by the correspondence.) *)
+Theorem C14_chain_then_chef : forall ops pf pf' recipe keep outnames,
+  good pf -> Forall kop_ok ops -> kpure ops pf = Some pf' ->
+  g_ndims (pf_g pf') = 3 -> 0 <= g_max_level (pf_g pf') ->
+  Forall (fun i => 0 <= i < pf_nfields pf') keep ->
+  (forall k pl, nth_error (pf_levels pf') k = Some pl -> recipe_fits recipe keep outnames k pl) ->
+  (do d <- run pdisk kop kop_tool ops (pf_disk pf); chef recipe keep outnames d)
+  = Some (pf_disk (chef_spec recipe keep outnames pf')) /\
+  Forall (fun d => exists p, good p /\ d = pf_disk p) (states pdisk kop kop_tool ops (pf_disk pf)).
+Proof. exact strain_combine_then_chef. Qed.
+Print Assumptions C14_chain_then_chef.
 
 Theorem C14_outputs_accepted : forall close ops pf pf' o limit lim,
   good pf -> Forall kop_ok ops -> kpure ops pf = Some pf' ->
